@@ -1220,11 +1220,25 @@ def _plain_formats(ctx: Ctx | None = None) -> list[str]:
 
 
 def _random_shard(ctx: Ctx, shard: int, nshards: int, n: int) -> None:
+    settled: set = set()
+
     def body(x: tuple) -> None:
         defn, insts = x
-        run_definition(ctx, defn, insts)
-    hyp_run(ctx, "definitions", _definition_strategy(_plain_formats(ctx)), body, n,
-            shrink_examples=120 if ctx.quick else 400)
+        try:
+            run_definition(ctx, defn, insts)
+        except Violation as v:
+            if v.sig not in settled:
+                raise
+            ctx.violation(v)    # shrunk in an earlier round already: keep the smaller case, no new shrink pass
+    # rounds: a fresh Hypothesis engine every 500 definitions keeps its choice tree (and the memory) small
+    strategy = _definition_strategy(_plain_formats(ctx))
+    done, rnd = 0, 0
+    while done < n:
+        step = min(500, n - done)
+        hyp_run(ctx, f"definitions:{rnd}", strategy, body, step, shrink_examples=120 if ctx.quick else 300)
+        done += step
+        rnd += 1
+        settled.update(ctx.violations)
 
 
 # ---- part (a): shipped definitions ---------------------------------------------------------------------------
